@@ -10,7 +10,7 @@ RULE = ("bounded-exhaustive strings over the 42-character class alphabet (tiling
         "for every string of length <= 3 and a 1-in-16 sample beyond), random soup/corruptions up to ~400 bytes, and configurations (fresh processes) "
         "that tokenize probe inputs before and after registering 1-5 extra symbolic / word operators in every role. distinct class = (token kind, "
         "kind of the following token, glued or spaced) pairs observed in agreement with R-TOK, plus one class per configuration operator")
-EXTRA_OPS = ["**", "=>", "<>", "<=>", "+++", "---", "!!", "**=", "hi", "xor", "π", "~~", "plusminus", "&&&", "|>", "?:", "::",
+EXTRA_OPS = ["=~", "!~", "<$>", "<~", "+.", "-x", "&a&", "**", "=>", "<>", "<=>", "+++", "---", "!!", "**=", "hi", "xor", "π", "~~", "plusminus", "&&&", "|>", "?:", "::",
              "is_strictly_greater_than_or_equal_to", "a_word_operator_of_exactly_32_by", "a_word_operator_of_exactly_33_byt", "x" * 70, "is-not", "≠≠", "不等于"]
 
 
